@@ -304,5 +304,6 @@ pub fn run(seed: u64, tier: &str, w: &mut dyn Write) -> usize {
             }
         }
     }
+    n += crate::c05b::run(&mut r, tier, w);
     n
 }
